@@ -53,7 +53,7 @@ Section rounds.
     Inv J E s → InOrder J s → io_ok J s l = true → exec J E s l = Next (s', cs) → InOrder J s'.
   Proof.
     intros Hinv Hio Hok Hex. unfold InOrder in *.
-    destruct l as [w t srcs| |ev|w|[[d src] tgt]|[d src]|[h d]]; simpl in Hex.
+    destruct l as [w t srcs| |ev|w i|[[d src] tgt]|[d src]|[h d]]; simpl in Hex.
     - destruct (assign_c J E (ctl s) w t srcs) as [[c h]| |e|e] eqn:Ha; try done.
       case_bool_decide; [done|]. injection Hex as <- <-. simpl.
       destruct (assign_c_fields _ _ _ _ _ _ Ha) as (-> & -> & _). done.
@@ -62,14 +62,14 @@ Section rounds.
     - destruct (list_remove ev (pool s)) as [ps|] eqn:Hrm; [|done].
       pose proof (list_remove_in _ _ _ Hrm) as Hin.
       destruct ev as [w d|h d|d v]; simpl in Hex.
-      + destruct (i_pub _ _ _ Hinv _ _ Hin) as (Hfin & Hout & Htask & _ & h & Hh & _). rewrite Hh in Hex.
+      + destruct (i_pub _ _ _ Hinv _ _ Hin) as (Hpubd & Hout & Htask & Hl0 & h & Hh & _). rewrite Hh in Hex.
         destruct (publish_fields J (ctl s) h d) as (_&_&_&_&_&_&_&_&_&Ese&Eco&_).
         case_bool_decide as Hlo.
         * destruct (complete_c J (publish_c J (ctl s) h d) w d.1) as [c2| |e|e] eqn:Hc; try done.
           injection Hex as <- <-. simpl. destruct (complete_c_fields _ _ _ _ Hc) as [-> ->]. rewrite Ese, Eco.
           intros t Ht. apply elem_of_union in Ht as [Ht|Ht].
-          -- apply elem_of_singleton in Ht as ->. intros d' Hd'.
-             destruct (i_fin_ev _ _ _ Hinv _ _ Hfin Hd') as [?|Hp]; [set_solver|].
+          -- apply elem_of_singleton in Ht as ->. intros d' Hd'. destruct (Hl0 Hlo) as [_ Hfin].
+             destruct (i_pub_ev _ _ _ Hinv _ (i_fin_pub _ _ _ Hinv _ Hfin _ Hd')) as [?|Hp]; [set_solver|].
              simpl in Hok. rewrite bool_decide_eq_true_2 in Hok by done. apply bool_decide_eq_true in Hok.
              rewrite Forall_forall in Hok. specialize (Hok _ Hp). apply outs_spec in Hd' as [Hd1 _].
              rewrite (Hok Hd1). set_solver.
@@ -80,7 +80,7 @@ Section rounds.
         intros t Ht. specialize (Hio t Ht). set_solver.
       + injection Hex as <- <-. simpl. done.
     - destruct (wq s !! w); [|done]. destruct (e_host E !! w); [|done].
-      destruct (negb _); [done|]. destruct (negb _); [done|]. injection Hex as <- <-. done.
+      destruct (negb _); [done|]. destruct (negb _); [done|]. destruct (bool_decide _); [done|]. injection Hex as <- <-. done.
     - destruct (list_remove _ _); [|done]. destruct (negb _); [done|]. injection Hex as <- <-. done.
     - destruct (list_remove _ _); [|done]. destruct (negb _); [done|]. injection Hex as <- <-. done.
     - destruct (list_remove _ _); [|done]. injection Hex as <- <-. done.
